@@ -89,10 +89,24 @@ def gen_unicode_tables():
     open(p, "w").write(r.stdout)
 
 
+def gen_rx_tables():
+    """coq/Model/RxTables.v (unicode.Categories/Scripts/FoldCategory/FoldScript and unicode.SimpleFold, for the model of
+    regexp/syntax) is generated from the Go toolchain like UnicodeTables.v; the committed copy is regenerated only when missing"""
+    p = os.path.join(COQ, "Model", "RxTables.v")
+    if os.path.exists(p):
+        return
+    r = subprocess.run(["go", "run", os.path.join(VERIF, "lib", "gen_rx_tables.go")], env=GOENV,
+                       stdout=subprocess.PIPE, stderr=subprocess.PIPE, text=True, timeout=300)
+    if r.returncode != 0:
+        raise RuntimeError("gen_rx_tables.go failed: " + r.stderr[-1000:])
+    open(p, "w").write(r.stdout)
+
+
 def coq_build(timeout=3000):
     """full .vo build; returns (ok, failing_file or None, tail of the log)"""
     with Lock("coq"):
         gen_unicode_tables()
+        gen_rx_tables()
         gen_coqproject()
         t0 = time.time()
         p = subprocess.run(["make", "-j16", "-k"], cwd=COQ, stdout=subprocess.PIPE, stderr=subprocess.STDOUT,
